@@ -8,6 +8,7 @@ thread scheduling, and the only wall-clock element is a 2 s cap that only a viol
 from __future__ import annotations
 
 import asyncio
+import copy
 import logging
 import threading
 from concurrent.futures import ThreadPoolExecutor
@@ -26,7 +27,9 @@ RULE = (
     "cases are (decorator in {asynchronous bare / called / with executor, wrap_async of sync and async functions, traced "
     "sync and async, cache, retry, throttle, timeout}, plain function / bound method / unbound method access, generated "
     "signature with positional, defaulted, keyword-only, *args and **kwargs parameters, matching call arguments, outcome "
-    "= return of a generated value or raise of a generated exception, call made from 0-3 nested scopes supplying family "
+    "= return of a generated value or raise of a generated exception, parameters optionally named like a wrapper's own "
+    "(instance, cls, args, key, loop, ...), method receivers plain / a copy.copy of an instance already used / an instance "
+    "of a subclass whose override delegates through super(), call made from 0-3 nested scopes supplying family "
     "state, default or explicit executor); non-trivial = a call with keyword arguments or defaults made from inside >=1 "
     "scope, or a method call; distinct = distinct case"
 )
@@ -46,7 +49,7 @@ ASSUMPTIONS = [
     "traced under python -O is the identity and is not explored",
     "throttle/timeout are documented as function-only: generated as plain functions",
 ]
-REQUIRED_CLASSES = ["method", "keyword-arguments", "inside-scope", "raises", "asynchronous", "traced"]
+REQUIRED_CLASSES = ["method", "keyword-arguments", "inside-scope", "raises", "asynchronous", "traced", "receiver-copy", "receiver-super", "wrapper-like-parameter-names"]
 
 DECS = [
     "asynchronous_bare", "asynchronous_call", "asynchronous_executor", "wrap_async_sync", "wrap_async_async",
@@ -114,10 +117,24 @@ class _AwaitableResult:
         yield  # pragma: no cover
 
 
+# parameter / keyword names a wrapper might use itself (its own parameters, closure helpers, classmethod receivers):
+# the user's function is free to use them too
+NAME_POOL = [
+    "instance", "cls", "function", "func", "fn", "args", "kwargs", "kwds", "key", "loop", "executor", "label", "typed",
+    "context", "result", "value", "exception", "state", "metric", "default", "owner", "task", "future", "limit", "period",
+    "timeout", "delay", "catching", "expiration", "name", "target", "wrapped", "other", "this",
+]  # fmt: skip
+
+
+def _nm(sig, name):
+    """the rendered name of a parameter / extra keyword (identity unless the case renames it)"""
+    return (sig.get("names") or {}).get(name, name)
+
+
 def render_sig(sig, method):
     parts = ["self"] if method else []
     for i in range(sig["pos"]):
-        name = f"p{i}"
+        name = _nm(sig, f"p{i}")
         if i >= sig["pos"] - sig["defaults"]:
             parts.append(f"{name}={i * 10}")
         else:
@@ -127,7 +144,7 @@ def render_sig(sig, method):
     elif sig["kwonly"]:
         parts.append("*")
     for j, has_default in enumerate(sig["kwonly"]):
-        parts.append(f"k{j}='d{j}'" if has_default else f"k{j}")
+        parts.append(f"{_nm(sig, f'k{j}')}='d{j}'" if has_default else _nm(sig, f"k{j}"))
     if sig["varkw"]:
         parts.append("**extra")
     return ", ".join(parts)
@@ -236,7 +253,7 @@ def run_case(case) -> Outcome:  # noqa: C901, PLR0912, PLR0915
 
     def _body(loc):
         loc = dict(loc)
-        loc.pop("self", None)
+        seen["self"] = loc.pop("self", None)
         seen["locals"] = loc
         seen["thread"] = threading.get_ident()
         seen["fp"] = fingerprint(labels)
@@ -300,12 +317,33 @@ def run_case(case) -> Outcome:  # noqa: C901, PLR0912, PLR0915
     except Exception as exc:  # noqa: BLE001
         out.violate("meta", f"C18.meta/decoration-raised/{dec}", repr(exc))
         return out
+    sync_dec = dec in ("traced_sync",)
+    receiver = case.get("receiver", "plain") if method else "plain"
+    overrides = {"n": 0, "expected": 0}
     if method:
         Holder = ns["Holder"]
         Holder.target = wrapped
         if hasattr(wrapped, "__set_name__"):
             wrapped.__set_name__(Holder, "target")
         obj = Holder()
+        if receiver == "super":
+            # a subclass overrides the decorated method and delegates to it: every call on the instance must keep
+            # going through the override
+
+            if sync_dec:
+
+                def target(self, *a, **k):
+                    overrides["n"] += 1
+                    return super(Sub, self).target(*a, **k)
+
+            else:
+
+                async def target(self, *a, **k):
+                    overrides["n"] += 1
+                    return await super(Sub, self).target(*a, **k)
+
+            Sub = type("Sub", (Holder,), {"target": target})
+            sub_obj = Sub()
     # ---------------------------------------------------------------- metadata
     def check_meta(w, where):
         for attr, want in (("__name__", "target"), ("__doc__", want_doc)):
@@ -315,7 +353,6 @@ def run_case(case) -> Outcome:  # noqa: C901, PLR0912, PLR0915
         if getattr(w, "__wrapped__", None) is not original:
             out.violate("meta", f"C18.meta/__wrapped__-not-original/{dec}/{where}", repr(getattr(w, "__wrapped__", None)))
 
-    sync_dec = dec in ("traced_sync",)
     if not (dec == "wrap_async_async"):  # wrap_async returns an async function unchanged: nothing to preserve
         check_meta(wrapped, "function")
         if method:
@@ -325,7 +362,7 @@ def run_case(case) -> Outcome:  # noqa: C901, PLR0912, PLR0915
                 out.violate("meta", f"C18.meta/bound-access-raised/{dec}", repr(exc))
     # ---------------------------------------------------------------- the call
     args = [make_value(a) for a in case["call"]["args"]]
-    kwargs = {k: make_value(v) for k, v in case["call"]["kwargs"].items()}
+    kwargs = {_nm(sig, k): make_value(v) for k, v in case["call"]["kwargs"].items()}
     captured: list = []
     handler = P.Capture(captured)
     root = logging.getLogger()
@@ -345,12 +382,30 @@ def run_case(case) -> Outcome:  # noqa: C901, PLR0912, PLR0915
         completions: list = []
 
         async def call_it():
+            recv = None
+            if method:
+                recv = sub_obj if receiver == "super" else obj
+                if receiver in ("copy", "super") and outcome["kind"] != "cancelled":
+                    # an earlier call on the receiver (first attribute access, first delegation to super())
+                    overrides["expected"] += 1
+                    try:
+                        r0 = recv.target(*args, **kwargs)
+                        if not sync_dec:
+                            await r0
+                    except BaseException as exc:  # noqa: BLE001 - the judged call below reports the outcome
+                        if isinstance(exc, (KeyboardInterrupt, SystemExit)):
+                            raise
+                if receiver == "copy":
+                    recv.target  # noqa: B018 - the method has been looked up on the original before it is copied
+                    recv = copy.copy(recv)
+                overrides["expected"] += 1
+            obs["recv"] = recv
             if form == "method":
-                target = obj.target
+                target = recv.target
                 a = args
             elif form == "unbound":
-                target = ns["Holder"].target
-                a = [obj, *args]
+                target = type(recv).target
+                a = [recv, *args]
             else:
                 target = wrapped
                 a = args
@@ -440,6 +495,10 @@ def run_case(case) -> Outcome:  # noqa: C901, PLR0912, PLR0915
         which = "/under-a-second-event-loop" if invoked_rounds == 1 and rounds == 2 else ""
         out.violate("transparent", f"C18.transparent/function-not-invoked{which}/{tag}", f"result={obs.get('result')!r}")
     else:
+        if method and seen.get("self") is not obs.get("recv"):
+            out.violate("transparent", f"C18.transparent/wrong-receiver/{tag}/{receiver}", f"self={seen.get('self')!r} receiver={obs.get('recv')!r}")
+        if receiver == "super" and overrides["n"] != overrides["expected"]:
+            out.violate("transparent", f"C18.transparent/subclass-override-bypassed/{tag}", f"override ran {overrides['n']}x for {overrides['expected']} calls")
         if not _same_locals(seen["locals"], expected_locals):
             out.violate("transparent", f"C18.transparent/arguments-changed/{tag}", f"received {seen['locals']!r} expected {expected_locals!r}")
         if outcome["kind"] == "cancelled":
@@ -475,11 +534,11 @@ def run_case(case) -> Outcome:  # noqa: C901, PLR0912, PLR0915
         rt = [m for m in coll.get("ResultTrace", []) if isinstance(m, ResultTrace)]
         call_args = tuple(args if form != "unbound" else args)
         if form in ("method", "unbound"):
-            call_args = (obj, *args)
+            call_args = (obs.get("recv"), *args)
         if not at:
             out.violate("traced", f"C18.traced/arguments-not-recorded/{tag}", f"{coll}")
         else:
-            a = at[0]
+            a = at[-1]  # the judged call is the last one made
             exp_a = call_args if call_args else MISSING
             exp_k = kwargs if kwargs else MISSING
             got_a = a.args if a.args is MISSING else tuple(a.args)
@@ -490,10 +549,10 @@ def run_case(case) -> Outcome:  # noqa: C901, PLR0912, PLR0915
         if not rt:
             out.violate("traced", f"C18.traced/result-not-recorded/{tag}/{outcome['kind']}", f"{coll}")
         elif outcome["kind"] == "cancelled":
-            if not isinstance(rt[0].result, asyncio.CancelledError):
-                out.violate("traced", f"C18.traced/wrong-result-recorded/{tag}/cancelled", f"{rt[0].result!r}")
-        elif rt[0].result is not want:
-            out.violate("traced", f"C18.traced/wrong-result-recorded/{tag}", f"{rt[0].result!r} vs {want!r}")
+            if not isinstance(rt[-1].result, asyncio.CancelledError):
+                out.violate("traced", f"C18.traced/wrong-result-recorded/{tag}/cancelled", f"{rt[-1].result!r}")
+        elif rt[-1].result is not want:
+            out.violate("traced", f"C18.traced/wrong-result-recorded/{tag}", f"{rt[-1].result!r} vs {want!r}")
         started = [r for r in captured if "Started" in str(r.msg) and "[target]" in str(r.msg)]
         if not started:
             out.violate("traced", f"C18.traced/no-scope-named-after-function/{tag}", f"{[str(r.msg)[:80] for r in captured][:6]}")
@@ -508,6 +567,10 @@ def run_case(case) -> Outcome:  # noqa: C901, PLR0912, PLR0915
         classes.append("raises")
     if executor is not None:
         classes.append("explicit-executor")
+    if receiver != "plain":
+        classes.append(f"receiver-{receiver}")
+    if sig.get("names"):
+        classes.append("wrapper-like-parameter-names")
     out.classes = classes
     out.nontrivial = method or (bool(case["nest"]) and (bool(kwargs) or sig["defaults"] > 0))
     return out
@@ -526,7 +589,7 @@ def _bind(sig, args, kwargs):
     loc = {}
     n = sig["pos"]
     for i in range(n):
-        name = f"p{i}"
+        name = _nm(sig, f"p{i}")
         if i < len(args):
             loc[name] = args[i]
         elif name in kwargs:
@@ -536,10 +599,10 @@ def _bind(sig, args, kwargs):
     if sig["varargs"]:
         loc["rest"] = tuple(args[n:])
     for j, has_default in enumerate(sig["kwonly"]):
-        name = f"k{j}"
+        name = _nm(sig, f"k{j}")
         loc[name] = kwargs[name] if name in kwargs else f"d{j}"
     if sig["varkw"]:
-        known = {f"p{i}" for i in range(n)} | {f"k{j}" for j in range(len(sig["kwonly"]))}
+        known = {_nm(sig, f"p{i}") for i in range(n)} | {_nm(sig, f"k{j}") for j in range(len(sig["kwonly"]))}
         loc["extra"] = {k: v for k, v in kwargs.items() if k not in known}
     return loc
 
@@ -624,9 +687,21 @@ def strategy(tier):
         if dec in ("traced_async", "wrap_async_async") and draw(st.integers(0, 4)) == 0:
             outcome = {"kind": "cancelled", "v": {"k": "none"}}  # the call is cancelled while suspended inside the function
         nest = draw(st.lists(st.lists(P.sv_strategy(), max_size=2), max_size=3))
+        # some parameters / extra keywords are named like things a wrapper uses itself
+        names = {}
+        canon = [f"p{i}" for i in range(pos)] + [f"k{j}" for j in range(len(sig["kwonly"]))] + (["zz"] if sig["varkw"] else [])
+        if canon and draw(st.integers(0, 2)) == 0:
+            for c in canon:
+                alt = draw(st.one_of(st.none(), st.sampled_from(NAME_POOL)))
+                if alt is not None and alt not in names.values():
+                    names[c] = alt
+        if names:
+            sig["names"] = names
+        receiver = draw(st.sampled_from(["plain", "plain", "copy", "super"])) if form in ("method", "unbound") else "plain"
         return {
             "dec": dec,
             "form": form,
+            "receiver": receiver,
             "sig": sig,
             "call": {"args": args, "kwargs": kwargs},
             "outcome": outcome,
@@ -638,8 +713,26 @@ def strategy(tier):
     return cases()
 
 
+METHOD_DECS = ("asynchronous_bare", "asynchronous_call", "asynchronous_executor", "cache", "traced_sync", "traced_async")
+
+
+def _name_cases():
+    """every decorator x call form with ALL wrapper-like names at once, as named parameters given by keyword and as extra
+    keywords collected by **kwargs: any collision with a wrapper's own parameter shows as a failed / altered call"""
+    for dec in DECS:
+        for form in ["function"] + (["method"] if dec in METHOD_DECS else []):
+            base = {"dec": dec, "form": form, "receiver": "plain", "outcome": {"kind": "return", "v": {"k": "int", "x": 1}}, "nest": [[{"type": "A", "v": 1}]],
+                    "nodoc": False, "executor": "default"}  # fmt: skip
+            n = len(NAME_POOL)
+            yield {**base, "sig": {"pos": 0, "defaults": 0, "kwonly": [], "varargs": False, "varkw": True},
+                   "call": {"args": [], "kwargs": {nm: {"k": "int", "x": i} for i, nm in enumerate(NAME_POOL)}}}  # fmt: skip
+            yield {**base, "sig": {"pos": n, "defaults": 0, "kwonly": [], "varargs": False, "varkw": False, "names": {f"p{i}": nm for i, nm in enumerate(NAME_POOL)}},
+                   "call": {"args": [], "kwargs": {f"p{i}": {"k": "int", "x": i} for i in range(n)}}}  # fmt: skip
+
+
 def enumerate_cases(tier):
-    """every (outer, inner) pair of stacked helper decorators"""
+    """every (outer, inner) pair of stacked helper decorators; every decorator with wrapper-like parameter names"""
+    yield from _name_cases()
     for outer in ("timeout", "cache", "throttle"):
         for inner in ("none", "timeout", "throttle", "cache", "retry", "traced"):
             if outer != "timeout" and inner in ("timeout", "throttle", "cache"):
@@ -649,7 +742,7 @@ def enumerate_cases(tier):
             yield {"kind": "stack", "outer": outer, "inner": inner, "dur": 1.0}
 
 
-EXHAUSTIVE_MEANS = "part 'stack' only: every supported (outer, inner) pair of stacked decorators: timeout over none/timeout/throttle/cache/retry/traced; cache and throttle over none/retry/traced"
+EXHAUSTIVE_MEANS = "every decorator x {function, method} called with all 34 wrapper-like names as named parameters and as extra keywords; part 'stack': every supported (outer, inner) pair of stacked decorators: timeout over none/timeout/throttle/cache/retry/traced; cache and throttle over none/retry/traced"
 
 
 def budget(tier):
